@@ -27,7 +27,7 @@ Next ==
   \/ \E r \in Replica, m \in Remote : FetchRefused(r, m)
   \/ \E r \in Replica, m \in Remote, b \in Bugs : Room(1) /\ Merge(r, m, b, a1, Rk)
   \/ WithRestart /\ \E r \in Replica, l \in (IF LoaderLess THEN BOOLEAN ELSE {TRUE}) : Reopen(r, l)
-  \/ WithRestart /\ \E r \in Replica, w \in 0..2 : DeleteClocks(r, w)
+  \/ WithRestart /\ \E r \in Replica, w \in 0..2 : (clk[r].de # Missing \/ clk[r].dc # Missing) /\ DeleteClocks(r, w)
 
 Spec == Init /\ [][Next]_vars
 
